@@ -33,7 +33,7 @@ COMPONENTS = {
 }
 ASSUMPTIONS = ["reference = all index combinations filtered by order-isomorphism (ref/patterns.py)"]
 EXPECTED_PROBES = ["memo_hit_other_target", "interleaved_same_object", "memo_flush", "shared_to_standard_object",
-                   "copy_after_use", "empty_pattern", "pattern_longer_than_target", "colours", "occurrence_ends_at_last_index", "interrupted_call", "pattern_object_address_reused", "derived_from_used_object"]
+                   "copy_after_use", "empty_pattern", "pattern_longer_than_target", "colours", "occurrence_ends_at_last_index", "interrupted_call", "pattern_object_address_reused", "derived_from_used_object", "used_inside_mesh_pattern"]
 
 
 def plan(tier):
@@ -161,7 +161,9 @@ def gen_case(rng, tier):
                   "via": rng.choice(["occurrences_in", "occurrences_in", "occurrences_of"])}
             if op["via"] == "occurrences_in" and rng.random() < 0.25:
                 ncol = rng.choice([1, 2, 2, 3])
-                op["colours"] = [[rng.randrange(ncol) for _ in pool[pi]["perm"]], [rng.randrange(ncol) for _ in t]]
+                # colours are arbitrary values: ints, strings, None ("uncoloured")
+                alphabet = rng.choice([[0, 1, 2], [0, 1, 2], ["a", "b", None], [None, 0, 1], [None, None, "x"]])[:max(1, ncol)]
+                op["colours"] = [[rng.choice(alphabet) for _ in pool[pi]["perm"]], [rng.choice(alphabet) for _ in t]]
             ops.append(op)
             live.append(nid)
             live_patt[nid] = pi
@@ -207,7 +209,15 @@ def gen_case(rng, tier):
                 if len(pool) < 8:
                     ops.append({"op": "clone", "patt": pi, "how": rng.choice(["copy", "deepcopy", "pickle"])})
                     pool.append({"perm": pool[pi]["perm"], "route": "clone"})
-            elif rr < 0.93:
+            elif rr < 0.9:
+                # the pool object is used as the underlying permutation of a mesh-type pattern
+                # that is searched for: another way of "using the same pattern object before"
+                k = len(pool[pi]["perm"])
+                ops.append({"op": "used_in_mesh", "patt": pi, "kind": rng.choice(["mesh", "vinc", "vinc", "cov", "biv"]),
+                            "idx": sorted(i for i in range(k + 1) if rng.random() < 0.4),
+                            "val": sorted(i for i in range(k + 1) if rng.random() < 0.4),
+                            "shading": common.rand_shading(rng, k), "target": target(), "take": rng.choice([None, None, 1, 2])})
+            elif rr < 0.95:
                 # a pattern obtained from a (possibly used) pool object through a library
                 # operation; it joins the pool under the permutation the definition gives
                 if len(pool) < 8:
@@ -458,6 +468,33 @@ def execute(case):
                     pool[pi]._pattern_details()  # pylint: disable=protected-access
                     out.fault("memo_prewarm")
                     hist.log.add("memo_prewarm", pi)
+            elif kind == "used_in_mesh":
+                pi = op["patt"]
+                if pi >= len(pool):
+                    continue
+                from permuta.patterns.bivincularpatt import BivincularPatt, CovincularPatt, VincularPatt  # pylint: disable=import-outside-toplevel
+
+                n = len(pperm[pi])
+                idx = [i for i in op["idx"] if i <= n]
+                val = [i for i in op["val"] if i <= n]
+                if op["kind"] == "mesh":
+                    mp_ = pm.MeshPatt(pool[pi], [tuple(c) for c in op["shading"] if c[0] <= n and c[1] <= n])
+                elif op["kind"] == "vinc":
+                    mp_ = VincularPatt(pool[pi], idx)
+                elif op["kind"] == "cov":
+                    mp_ = CovincularPatt(pool[pi], val)
+                else:
+                    mp_ = BivincularPatt(pool[pi], idx, val)
+                gen = mp_.occurrences_in(pm.Perm(op["target"]))
+                taken = 0
+                for _occ in gen:  # what it finds is another property's business
+                    taken += 1
+                    if op["take"] is not None and taken >= op["take"]:
+                        break
+                searched.setdefault(pi, set()).add(tuple(op["target"]))
+                out.fault("used_inside_mesh_pattern")
+                out.probe("used_inside_mesh_pattern")
+                hist.log.add("used_in_mesh", pi, op["kind"])
             elif kind == "derive":
                 pi = op["patt"]
                 if pi >= len(pool):
